@@ -209,7 +209,8 @@ def run_file(item):
 
 def files(tier):
     from .c04 import files as f4files
-    return [(k, o) for (k, o) in f4files(tier) if any(isinstance(x, tuple) and x[0] > 0 for x in o)]
+    # (segments with a short last chunk have no layout map: what their last chunk holds is only defined differentially, in C04)
+    return [(k, o) for (k, o) in f4files(tier) if any(isinstance(x, tuple) and x[0] > 0 for x in o) and not k.startswith('shortmid')]
 
 
 def run(ctx):
